@@ -52,13 +52,13 @@ int main(int argc, char** argv) {
             g_rank.assign(n + 1, 0); int r = 1; for (int x : head) if (x <= n && !g_rank[x]) g_rank[x] = r++; for (int x = 1; x <= n; x++) if (!g_rank[x]) g_rank[x] = r++;
             memset(g_left_stage, 0, sizeof g_left_stage); g_delay_seed = (unsigned)(seed0 * 31 + s * 7);
             if (stuck >= 10) break;
-            TR.begin_exec(); Result rr = run_in_arena(g_nthreads, seed0 + s * 401 + paths, dens[s % 8], 40000000, [&] { pipe_case(m, tok, n); }, false); ++paths; steps += rr.steps; if (rr.rc) ++stuck;
+            TR.begin_exec(); Result rr = isolated_run(300, [&] { return run_in_arena(g_nthreads, seed0 + s * 401 + paths, dens[s % 8], 40000000, [&] { pipe_case(m, tok, n); }, false); }); ++paths; steps += rr.steps; if (rr.rc) ++stuck;
         }
         g_rank.clear();
     } else
     for (int s = 0; s < nseeds; s++) for (auto& m : strings) for (int tok = 1; tok <= 3; tok++) {
         if (stuck >= 10) break; int n = (int)((seed0 + s + tok + m.size()) % 6); g_delay_seed = (unsigned)(seed0 * 31 + s * 7 + tok);
-        TR.begin_exec(); Result r = run_in_arena(3, seed0 + s * 401 + tok * 17 + paths, dens[(s + tok) % 8], 20000000, [&] { pipe_case(m, tok, n); }, false); ++paths; steps += r.steps; if (r.rc) ++stuck;
+        TR.begin_exec(); Result r = isolated_run(300, [&] { return run_in_arena(3, seed0 + s * 401 + tok * 17 + paths, dens[(s + tok) % 8], 20000000, [&] { pipe_case(m, tok, n); }, false); }); ++paths; steps += r.steps; if (r.rc) ++stuck;
     }
     TR.close();
     printf("{\"paths\":%ld,\"steps\":%ld,\"stuck\":%ld,\"wall\":%.2f}\n", paths, steps, stuck, tm.s());
